@@ -57,12 +57,17 @@ StoreOfJson(js) ==
           exts |-> [i \in 1..Len(js.u.exts) |-> MapOfPairs(js.u.exts[i])]],
    k |-> 0, next |-> 0, ncs |-> Len(js.cs)]
 
-(* the answer record of the implementation, renamed canonically *)
+(* The answer record of the implementation, renamed canonically.  A reported disequality
+   that mentions a variable which does not occur in the answer is a C03 matter
+   (AnswerReason); for the DENOTATION of the answer such a variable is existentially
+   quantified and, being unbound, can always be chosen so that the disequality holds, so the
+   constraint does not restrict the answer's instances and is left out here. *)
 ImplAnswer(a) ==
   LET vs == VarSeq(ListOf(a.q))
       ren == AnyRen(vs)
+      neqs == {NeqOfJson(a.cs[i]) : i \in {j \in 1..Len(a.cs) : a.cs[j][1] = "neq"}}
   IN [q |-> [i \in 1..Len(a.q) |-> Inst(a.q[i], ren)],
-      cs |-> {RenNeq(NeqOfJson(a.cs[i]), ren) : i \in {j \in 1..Len(a.cs) : a.cs[j][1] = "neq"}}]
+      cs |-> {RenNeq(c, ren) : c \in {d \in neqs : NeqVars(d) \subseteq DOMAIN ren}}]
 
 -----------------------------------------------------------------------------
 (* Per-record acceptance predicates; each yields "" (accepted) or a reason. *)
@@ -82,7 +87,7 @@ StoreOpReason(rec, Snext, specOk, I) ==
     IF ~Acyclic(I.smap) \/ TreeStoreEquiv(Snext, I) THEN "" ELSE "store_not_equivalent",
     BalanceReason(I),
     (* process_extension saw exactly the new bindings of a successful unification *)
-    IF rec.op[1] = "unify" /\ rec.ok
+    IF rec.op[1] \in {"unify", "eq"} /\ rec.ok
     THEN (IF Len(I.u.exts) = Len(prevI.u.exts) + 1
              /\ LET e == I.u.exts[Len(I.u.exts)] IN
                 {<<x, e[x]>> : x \in DOMAIN e}
@@ -92,17 +97,20 @@ StoreOpReason(rec, Snext, specOk, I) ==
     IF rec.ok \/ (I.smap = prevI.smap /\ I.cs = prevI.cs /\ I.ds = prevI.ds) THEN "" ELSE "failure_changed_store"
   >>)
 
-(* C03 on one recorded answer *)
+(* C03 on one recorded answer.  "A constraint on variable v" is read the way the library
+   reads it: v is an operand of the disequality - a key, or a right-hand side that is itself
+   a variable (the weaker reading; a judge must not demand more than the property states). *)
+NeqOperands(c) == (DOMAIN c[2]) \cup {c[2][x] : x \in {y \in DOMAIN c[2] : IsVar(c[2][y])}}
 AnswerReason(a) ==
   LET qv == UNION {VarsOf(a.q[i]) : i \in 1..Len(a.q)}
       neqs == {NeqOfJson(a.cs[i]) : i \in {j \in 1..Len(a.cs) : a.cs[j][1] = "neq"}}
-      RelOf(i) == {c \in neqs : NeqVars(c) \cap VarsOf(a.q[i]) # {}}
+      RelOf(i) == {c \in neqs : NeqOperands(c) \cap VarsOf(a.q[i]) # {}}
+      Got(i) == {NeqOfJson(a.rel[i][j]) : j \in {n \in 1..Len(a.rel[i]) : a.rel[i][n][1] = "neq"}}
   IN FirstReason(<<
        IF \A v \in qv : v[1] = "any" THEN "" ELSE "answer_not_reified",
        IF \A c \in neqs : NeqVars(c) \subseteq qv THEN "" ELSE "constraint_mentions_unreified_variable",
        IF \A i \in 1..Len(a.q) :
-            {NeqOfJson(a.rel[i][j]) : j \in {n \in 1..Len(a.rel[i]) : a.rel[i][n][1] = "neq"}} = RelOf(i)
-            /\ a.con[i] = (RelOf(i) # {})
+            RelOf(i) \subseteq Got(i) /\ Got(i) \subseteq neqs /\ a.con[i] = (Len(a.rel[i]) > 0)
        THEN "" ELSE "relevant_constraints_incomplete"
      >>)
 
